@@ -10,15 +10,15 @@ Hypothesis HF : dialogue_repaired F.
 Variable cfg : config.
 Variable render : msg -> list bytes * option err.
 
-Lemma run_legal : forall caps script ms,
-  let o := run_case std_expects F cfg caps script ms render in
+Lemma run_legal : forall caps caps_tls script ms,
+  let o := run_case std_expects F cfg caps caps_tls script ms render in
   all_legal (o_world o) = true /\ all_attributed (o_world o) = true.
-Proof. intros. exact (proj1 (run_spec F HF cfg render caps script ms)). Qed.
+Proof. intros. exact (proj1 (run_spec F HF cfg render caps caps_tls script ms)). Qed.
 
-Lemma commits_exact : forall caps script ms,
-  let o := run_case std_expects F cfg caps script ms render in
+Lemma commits_exact : forall caps caps_tls script ms,
+  let o := run_case std_expects F cfg caps caps_tls script ms render in
   w_commits (o_world o) = batch_commits render ms (o_results o).
-Proof. intros. exact (proj1 (proj2 (run_spec F HF cfg render caps script ms))). Qed.
+Proof. intros. exact (proj1 (proj2 (run_spec F HF cfg render caps caps_tls script ms))). Qed.
 
 Definition complete_commit (ms : list msg) (c : commit) : Prop :=
   exists m from, In m ms /\ m_from m = Some from /\ snd (render m) = None /\
@@ -37,13 +37,13 @@ Proof.
     exists m', f. split; [right; exact Hin|auto].
 Qed.
 
-Lemma commits_complete : forall caps script ms,
-  let o := run_case std_expects F cfg caps script ms render in
+Lemma commits_complete : forall caps caps_tls script ms,
+  let o := run_case std_expects F cfg caps caps_tls script ms render in
   Forall (fun c => exists m from, In m ms /\ m_from m = Some from /\ snd (render m) = None /\
                    c = mkCommit from (m_rcpts m) (dotcanon (concat (fst (render m)))))
          (w_commits (o_world o)).
 Proof.
-  intros caps script ms o. destruct (run_spec F HF cfg render caps script ms) as (_ & HC & HR).
+  intros caps caps_tls script ms o. destruct (run_spec F HF cfg render caps caps_tls script ms) as (_ & HC & HR).
   fold o in HC, HR. rewrite HC. destruct (attempted (o_ret o)).
   - exact (batch_commits_complete _ _ HR).
   - rewrite HR, untouched_commits. constructor.
@@ -61,31 +61,31 @@ Qed.
 Lemma forall2_length : forall (A B : Type) (P : A -> B -> Prop) la lb, Forall2 P la lb -> length la = length lb.
 Proof. intros A B P la lb H. induction H; cbn; [reflexivity|f_equal; assumption]. Qed.
 
-Lemma results_length : forall caps script ms,
-  length (o_results (run_case std_expects F cfg caps script ms render)) = length ms.
+Lemma results_length : forall caps caps_tls script ms,
+  length (o_results (run_case std_expects F cfg caps caps_tls script ms render)) = length ms.
 Proof.
-  intros caps script ms. destruct (run_spec F HF cfg render caps script ms) as (_ & _ & HR).
+  intros caps caps_tls script ms. destruct (run_spec F HF cfg render caps caps_tls script ms) as (_ & _ & HR).
   destruct (attempted _).
   - symmetry. exact (forall2_length _ _ _ _ _ HR).
   - rewrite HR. unfold untouched. apply map_length.
 Qed.
 
-Lemma commits_at_most_once : forall caps script ms,
-  let o := run_case std_expects F cfg caps script ms render in
+Lemma commits_at_most_once : forall caps caps_tls script ms,
+  let o := run_case std_expects F cfg caps caps_tls script ms render in
   exists mask : list bool, length mask = length ms /\
     w_commits (o_world o) = flat_map (commit_of render) (map fst (filter snd (combine ms mask))).
 Proof.
-  intros caps script ms o. exists (map acked (o_results o)).
+  intros caps caps_tls script ms o. exists (map acked (o_results o)).
   split; [rewrite map_length; apply results_length|].
   unfold o. rewrite commits_exact. apply batch_commits_mask. apply results_length.
 Qed.
 
-Lemma delivered_iff : forall caps script ms,
-  let o := run_case std_expects F cfg caps script ms render in
+Lemma delivered_iff : forall caps caps_tls script ms,
+  let o := run_case std_expects F cfg caps caps_tls script ms render in
   Forall (fun r => (r_delivered r = true <-> r_eod r = Some 250) /\
                    (r_delivered r = true -> acked r = true)) (o_results o).
 Proof.
-  intros caps script ms o. destruct (run_spec F HF cfg render caps script ms) as (_ & _ & HR). fold o in HR.
+  intros caps caps_tls script ms o. destruct (run_spec F HF cfg render caps caps_tls script ms) as (_ & _ & HR). fold o in HR.
   destruct (attempted (o_ret o)).
   - induction HR as [|m r mt rt Hp Hf IH]; constructor; [|exact IH].
     destruct Hp as (H1 & _). split; [exact H1|]. intros Hd. apply H1 in Hd. unfold acked. rewrite Hd. reflexivity.
@@ -112,25 +112,25 @@ Proof.
   intros _. unfold acked; cbn. split; [reflexivity|split; [reflexivity|discriminate]].
 Qed.
 
-Lemma render_failure_not_delivered : forall caps script ms,
-  let o := run_case std_expects F cfg caps script ms render in
+Lemma render_failure_not_delivered : forall caps caps_tls script ms,
+  let o := run_case std_expects F cfg caps caps_tls script ms render in
   Forall2 (fun m r => snd (render m) <> None ->
              r_delivered r = false /\ acked r = false /\ (attempted (o_ret o) = true -> r_err r <> None))
           ms (o_results o).
 Proof.
-  intros caps script ms o. destruct (run_spec F HF cfg render caps script ms) as (_ & _ & HR). fold o in HR.
+  intros caps caps_tls script ms o. destruct (run_spec F HF cfg render caps caps_tls script ms) as (_ & _ & HR). fold o in HR.
   destruct (attempted (o_ret o)).
   - apply msg_post_render_failure. exact HR.
   - rewrite HR. apply untouched_render_failure.
 Qed.
 End Cor.
 
-Lemma run_legal_source : forall cfg render caps script ms,
-  let o := run_gen cfg caps script ms render in
+Lemma run_legal_source : forall cfg render caps caps_tls script ms,
+  let o := run_gen cfg caps caps_tls script ms render in
   all_legal (o_world o) = true /\ all_attributed (o_world o) = true.
 Proof.
-  intros cfg render caps script ms. unfold run_gen. rewrite gen_expects_std.
-  exact (run_legal gen_fixes gen_dialogue_repaired cfg render caps script ms).
+  intros cfg render caps caps_tls script ms. unfold run_gen. rewrite gen_expects_std.
+  exact (run_legal gen_fixes gen_dialogue_repaired cfg render caps caps_tls script ms).
 Qed.
 
 Lemma ssm_8bit_refused : forall X F cfg render m st,
